@@ -27,11 +27,13 @@ def main():
         ck.broken.append("Spec/C02Oracle.v / Model/ProtocolCheck.v do not build")
         ck.finish(BASE_TRUST + PROTO_TRUST)
     tmpd = tempfile.mkdtemp(prefix="lsf_c02_")
-    sizes = [("seq", 1500 if thorough else 200), ("fanout_ok", 800 if thorough else 100), ("fanout_fail", 800 if thorough else 100), ("fanout_fail_nested", 800 if thorough else 100)]
+    sizes = [("seq", 1500 if thorough else 200), ("fanout_ok", 800 if thorough else 100), ("fanout_fail", 800 if thorough else 100), ("fanout_fail_nested", 800 if thorough else 100), ("children", 600 if thorough else 80)]
     infos = ec.run_profiles(rng, tmpd, sizes, thorough)
+    infos.append(eg.named_child_rerun(tmpd))
     shutil.rmtree(tmpd, ignore_errors=True)
 
     F22 = ("F22", lambda d: d.get("nested_fanout_with_failure"))
+    F33 = ("F33", lambda d: d.get("profile") == "directed_named_child")
 
     def desc(info):
         d = eg.describe(info)
@@ -39,10 +41,17 @@ def main():
         return d
 
     for info in infos:
+        if info.status == "max_steps":
+            # the generated machines are loop free (Choice jumps forward only) and every Retry is bounded: a run that is still busy after 4000 steps never comes to rest
+            d = desc(info)
+            ck.violation("the run did not come to rest within 4000 steps (a livelock: the executions never end): %s"
+                         % json.dumps({k: d[k] for k in ("profile", "schedule", "definition", "child_definition", "inputs") if k in d})[:1500], {"case": d})
+            break
+    for info in infos:
         if info.status == "exception":
             d = desc(info)
             ck.violation("an engine callback raised %s: the process would stop, the execution never ends and its event is never acknowledged: %s"
-                         % (info.exception["error"], json.dumps({k: d[k] for k in ("profile", "schedule", "definition", "inputs")})[:1200]), {"case": d})
+                         % (info.exception["error"], json.dumps({k: d[k] for k in ("profile", "schedule", "definition", "child_definition", "inputs") if k in d})[:1200]), {"case": d})
             break
     # 1. the model is the code: replay the sequential runs
     pcases, pdesc = [], []
@@ -75,24 +84,24 @@ def main():
         for f in funcs:
             for i in r[f][:3]:
                 d = desc(cdesc[i])
-                kf = ck.finding_for(d, [F22])
+                kf = ck.finding_for(d, [F22, F33])
                 if kf:
                     ck.known_finding(kf, what[f])
                     continue
                 d["trace"] = cdesc[i].trace_term
                 d["leftovers"] = cdesc[i].leftovers
-                ck.violation("%s: %s" % (what[f], json.dumps({k: d[k] for k in ("profile", "schedule", "definition", "inputs")})[:1500]), {"case": d, "monitor": f})
+                ck.violation("%s: %s" % (what[f], json.dumps({k: d[k] for k in ("profile", "schedule", "definition", "child_definition", "inputs") if k in d})[:1500]), {"case": d, "monitor": f})
     ended = sum(1 for i in infos if i.status == "quiescent")
     failed = sum(1 for i in infos for s in [i.samples[-1] if i.samples else {}] for a in i.arns if (s.get(a, {}).get("record") or {}).get("status") == "FAILED")
     ck.add_group("monitors", len(cases), min(failed, len(cases) - failed) * 2, [desc(infos[0])],
                  runs=len(infos), quiescent=ended, executions=len(cases), failed=failed,
                  profiles={p: sum(1 for i in infos if i.profile == p) for p, _ in sizes},
                  schedules={"canonical": sum(1 for i in infos if i.schedule == "canonical"), "random": sum(1 for i in infos if i.schedule != "canonical")})
-    ck.cov["rule"] = ("random machines (sequential with Task/Retry/Catch/Wait/Choice; fan-out whose branches succeed; flat fan-out with task errors) x 1-3 concurrent "
+    ck.cov["rule"] = ("random machines (sequential with Task/Retry/Catch/Wait/Choice; fan-out whose branches succeed; flat and nested fan-out with task errors; parents whose Task states launch a child machine, fire-and-forget or waiting for it, some with a timeout that cancels the child) x 1-3 concurrent "
                       "executions x canonical FIFO or random schedules of deliveries, replies and timers on the simulated fabric; record sampled after every step; "
                       "non-trivial = executions ending FAILED and not FAILED both counted (min*2)")
     ck.assumptions = ["theorems quantify over all schedules and decisions of machines without fan-out; fan-out is covered by the monitors on sampled runs only",
-                      "StartSyncExecution and child launches are exercised by C15, not here"]
+                      "child launches (startExecution, .sync, .sync:2) are part of the campaign (profile children); StartSyncExecution and callbacks are exercised by C15"]
     ck.finish(BASE_TRUST + PROTO_TRUST)
 
 
